@@ -13,6 +13,8 @@ CONSTANTS
   TreeStart,    \* TRUE: also start_index -1 (= the destination's tree size; cfg files take no negative numbers)
   Ends,         \* end_index values: 0 (none), inside, equal to, beyond the STH
   Aheads,       \* how many entries the source serves beyond the STH it announces
+  Lags,         \* signer schedules: the signer sleeps until the root has been asked for more than this many times (SignerAwake;
+                \*   binds the simulation instances only: Integrate is free in the exhaustive ones, so {0} there)
   MaxFaults, FaultBudgets, MaxRestarts
 
 \* destination at the start: empty, partial (some of it integrated), full
@@ -31,13 +33,13 @@ Worlds == UNION { UNION { { [ src0 |-> e.src0, growth |-> e.growth, ahead |-> e.
                           d \in DestShapes(e.src0) } : e \in Envs }
 Knobs == { k \in [ batch : Batches, fetchers : FetcherCounts, submitters : SubmitterCounts, cont : Conts, stop : {FALSE},
                    start : Starts \cup (IF TreeStart THEN {-1} ELSE {}), end : Ends,
-                   mode : Modes, faults : FaultBudgets, restarts : {MaxRestarts} ] :
+                   mode : Modes, faults : FaultBudgets, restarts : {MaxRestarts}, lag : Lags ] :
              \* continuous mode ignores the range (ContIgnoresRange): start -1 says nothing new there, every other value does
              k.cont => k.start # -1 }
 Cfgs == { [ src0 |-> w.src0, growth |-> w.growth, ahead |-> w.ahead, bad |-> w.bad, destLen |-> w.destLen, destInt |-> w.destInt,
             batch |-> k.batch, fetchers |-> k.fetchers, submitters |-> k.submitters, cont |-> k.cont, stop |-> k.stop,
             start |-> k.start, end |-> k.end, forked |-> w.forked, forkAt |-> w.forkAt, mode |-> k.mode,
-            faults |-> k.faults, restarts |-> k.restarts ] : w \in Worlds, k \in Knobs }
+            faults |-> k.faults, restarts |-> k.restarts, lag |-> k.lag ] : w \in Worlds, k \in Knobs }
 
 MCInit == \E c \in Cfgs : InitWith(c)
 MCSpec == MCInit /\ [][Next]_vars
@@ -51,5 +53,6 @@ TypeOK ==
   /\ \A b \in bag : b.n >= 0 /\ b.s + b.n <= Hi /\ (b.n = 0 <=> b.u > 0)
   /\ \A h \in hold : h.n >= 0 /\ (h.n = 0 <=> h.u > 0) /\ (h.st = "wait" => h.n > 0)
   /\ faults \in 0..MaxFaults
+  /\ subm \subseteq Idx /\ \A i \in subm : dest[i] # None
 
 =============================================================================
